@@ -656,6 +656,9 @@ pub fn run(session: &Session) -> i32 {
     for p in crate::genr::nearmiss::string_spelling_programs() {
         cases.push(json!({"src": "string-spelling", "text": p}));
     }
+    for p in crate::genr::nearmiss::duplicate_name_programs() {
+        cases.push(json!({"src": "duplicate-names", "text": p}));
+    }
     for p in import_programs() {
         cases.push(json!({"src": "imports", "text": p}));
     }
